@@ -325,15 +325,36 @@ enable_grad = no_grad
 
 
 # ------------------------------------------------------------------------------- functional ops
+def _graph_combine(tensors, raw, name):
+    """stack / cat of tensors that belong to the autograd model's graph: the result is a new graph node whose local Jacobians are the 0/1 selection
+    matrices of the data movement (found by pushing integer tags through the same operation)"""
+    tensors = list(tensors)
+    res = raw(tensors)
+    if not (is_grad_enabled() and _bi.any(isinstance(t, Tensor) and t.requires_grad for t in tensors)):
+        return res
+    if _bi.any(isinstance(t, (GramOnly, RowComb)) for t in tensors):
+        return res
+    from torch import autograd as _ag
+    BIG = 10 ** 6
+    tags = [Tensor._make([i * BIG + k for k in range(t.numel())], tuple(t.shape), int64, "int") for i, t in enumerate(tensors)]
+    tagged = [builtins_int(x) for x in raw(tags)._flat()]
+    jac = {}
+    for i, t in enumerate(tensors):
+        M = [[_R(1) if (tg // BIG == i and tg % BIG == k) else _R(0) for k in range(t.numel())] for tg in tagged]
+        jac[(0, i)] = M
+    out = _ag.op(tensors, [tuple(res.shape)], jac, saves=False, vmap_ok=True, name=name, values=[list(res._flat())], dtype=res.dtype)[0]
+    return out
+
+
 def cat(tensors, dim=0):
-    return _cat(tensors, dim)
+    return _graph_combine(tensors, lambda ts: _cat(ts, dim), "Cat")
 
 
 concatenate = concat = cat
 
 
 def stack(tensors, dim=0):
-    return _stack(tensors, dim)
+    return _graph_combine(tensors, lambda ts: _stack(ts, dim), "Stack")
 
 
 def vstack(tensors):
